@@ -40,7 +40,7 @@ def parse_printf(fmt):
 
 def parse_spec(spec):
     """f-string format spec: [0][width][.prec][d|f]"""
-    m = re.fullmatch(r"(0?)(\d*)(?:\.(\d+))?([df]?)", spec)
+    m = re.fullmatch(r"(0?)(\d*)(?:\.(\d+))?([df]?)", spec)      # (alignment / sign options are not used by the repository)
     if not m:
         return None
     zero, width, prec, conv = m.groups()
@@ -48,60 +48,98 @@ def parse_spec(spec):
     return ("0" if zero else ""), int(width) if width else 0, (int(prec) if prec is not None else (6 if conv == "f" else 0)), conv
 
 
-def language(flags, width, prec, conv):
-    """printf output language of one conversion"""
+def core_language(flags, prec, conv):
+    """printf output language of one conversion without blank padding (and without the blank of the ' ' flag)"""
     if "+" in flags:
         sign = z3.Union(z3.Re("+"), z3.Re("-"))
-    elif " " in flags:
-        sign = z3.Union(z3.Re(" "), z3.Re("-"))
     else:
         sign = z3.Option(z3.Re("-"))
     body = z3.Plus(D)
     if conv == "f" and prec > 0:
         body = z3.Concat(body, z3.Re("."), z3.Concat(*([D] * prec)) if prec > 1 else D)
-    core = z3.Concat(sign, body)
-    if width and "0" not in flags:
-        pad = z3.Star(z3.Re(" "))
-        return z3.Concat(core, pad) if "-" in flags else z3.Concat(pad, core)
-    return core
+    elif conv == "f" and "#" in flags:
+        body = z3.Concat(body, z3.Re("."))
+    return z3.Concat(sign, body)
 
 
-def min_len(width):
-    return width
+BLANKS = z3.Star(z3.Re(" "))
+fmt_pad = z3.Function("fmt_pad", z3.IntSort(), z3.IntSort(), StrS)      # (format id, length) -> that many blanks
+
+
+def blanks(I, key, n):
+    """a string of n >= 0 blanks"""
+    p = fmt_pad(z3.IntVal(fid(key)), n)
+    I.prover.assume(z3.And(z3.InRe(p, BLANKS), z3.Length(p) == n))
+    note(I, p, BLANKS)
+    return p
+
+
+def note(I, piece, lang):
+    piece = S(piece)
+    I.__dict__.setdefault("str_lang", {})[piece.get_id()] = (piece, lang)
 
 
 def render(I, x_term, is_int, flags, width, prec, conv, key):
-    """text for a symbolic number; returns Sym(str) and records the assumed facts"""
+    """text for a symbolic number: [blanks] core [blanks]; returns Sym(str) and records the assumed facts.
+    The core (sign and digits) is one piece whose regular language is recorded; padding blanks are separate pieces."""
     P = I.prover
+    zero = "0" in flags and "-" not in flags
     if conv in ("d", "i"):
         if not is_int:
             xi = z3.ToInt(x_term)          # %d truncates a float toward zero; ToInt floors: equal for x >= 0
-            # (negative non-integers with %d are outside the modelled domain)
-            P.assume(z3.Or(x_term >= 0, z3.ToReal(xi) == x_term))
+            xi = z3.If(x_term >= 0, xi, -z3.ToInt(-x_term))
         else:
             xi = x_term
-        s = fmt_int(z3.IntVal(fid(key)), xi)
-        P.assume(z3.InRe(s, language(flags, width, 0, "d")))
-        P.assume(value_of(s) == z3.ToReal(xi))
-        P.assume(z3.PrefixOf(z3.StringVal("-"), s) == (xi < 0)) if "+" not in flags and " " not in flags and (not width or "0" in flags) else None
+        core = S(fmt_int(z3.IntVal(fid(key)), xi))
+        P.assume(z3.InRe(core, core_language(flags, 0, "d")))
+        P.assume(z3.And(value_of(core) == z3.ToReal(xi), z3.ToInt(value_of(core)) == xi))
+        P.assume(z3.PrefixOf(z3.StringVal("-"), core) == (xi < 0))
+        neg = xi < 0
+        xr = z3.ToReal(xi)
     else:
         xr = z3.ToReal(x_term) if is_int else x_term
-        s = fmt_real(z3.IntVal(fid(key)), xr)
-        P.assume(z3.InRe(s, language(flags, width, prec, "f")))
+        core = S(fmt_real(z3.IntVal(fid(key)), xr))
+        P.assume(z3.InRe(core, core_language(flags, prec, "f")))
         scale = 10 ** prec
-        v = value_of(s)
+        v = value_of(core)
         k = I.fresh("fmt_scaled", z3.IntSort())
         P.assume(z3.And(v * scale == z3.ToReal(k), v - xr <= z3.RealVal(1) / (2 * scale), xr - v <= z3.RealVal(1) / (2 * scale)))
-        if "+" not in flags and " " not in flags and (not width or "0" in flags):
-            P.assume(z3.PrefixOf(z3.StringVal("-"), s) == (xr < 0))      # (CPython prints "-0" for a negative value rounding to zero)
-    annotate(I, s, x_term if is_int else None, (z3.ToReal(x_term) if is_int else x_term), flags, width, prec, conv)
+        if prec == 0:
+            P.assume(z3.ToInt(v) == k)
+        P.assume(z3.PrefixOf(z3.StringVal("-"), core) == (xr < 0))      # (CPython prints "-0" for a negative value rounding to zero)
+        neg = xr < 0
+    annotate(I, core, xr, flags, width if zero else 0, prec, conv)
+    from .numparse import float_ok, int_ok
+    P.assume(float_ok(core))
+    whole = conv in ("d", "i") or (prec == 0 and "#" not in flags)
+    if whole:
+        P.assume(int_ok(core))          # a digit string (no point): int() accepts it too
+    pieces = [core]
+    lead = None
+    if " " in flags and "+" not in flags:
+        if not P.fork(neg):       # the blank flag puts a blank where the sign of a non-negative number would be
+            lead = z3.StringVal(" ")
+            pieces = [lead, core]
+    inner = z3.Length(core) + (1 if lead is not None else 0)
     if width:
-        P.assume(z3.Length(s) >= width)
-        if "0" in flags:
-            # zero padded to exactly `width` characters when the number is short enough
-            ndig = width - (prec + 1 if (conv == "f" and prec > 0) else 0)
-            P.assume(z3.Implies(z3.And(value_of(s) >= 0, value_of(s) < 10 ** ndig), z3.Length(s) == width))
-    return Sym(VStr(s))
+        if zero:
+            # zero padding goes between sign and digits: part of the core; its length is max(width, natural length)
+            P.assume(inner >= width)
+            ndig = width - (prec + 1 if (conv == "f" and (prec > 0 or "#" in flags)) else 0) - (1 if ("+" in flags or " " in flags) else 0)
+            if ndig >= 1:
+                P.assume(z3.Implies(z3.And(value_of(core) >= 0, value_of(core) < 10 ** ndig), inner == width))
+        else:
+            n = I.fresh("fmt_npad", z3.IntSort())
+            P.assume(n == z3.If(inner >= width, 0, width - inner))
+            pad = blanks(I, key, n)
+            pieces = pieces + [pad] if "-" in flags else [pad] + pieces
+    text = z3.Concat(*pieces) if len(pieces) > 1 else pieces[0]
+    if len(pieces) > 1:
+        # float()/int() ignore surrounding blanks
+        P.assume(z3.And(value_of(text) == value_of(core), float_ok(text)))
+        if whole:
+            P.assume(int_ok(text))
+    return Sym(VStr(text))
 
 
 def entails(I, f):
@@ -109,31 +147,34 @@ def entails(I, f):
     return r == z3.unsat
 
 
-def annotate(I, s, xi, xr, flags, width, prec, conv):
-    """Tightest regular language of the rendered text that the path condition determines (sign known?
-    number of integer digits known for zero-padded fields?): recorded python-side so that re.match on
-    a concatenation of such pieces is decided at the language level (pure regex queries)."""
-    if "+" in flags or " " in flags or (width and "0" not in flags):
-        lang = language(flags, width, prec, conv)
+def annotate(I, s, xr, flags, width, prec, conv):
+    """Tightest regular language of the core text that the path condition determines (sign known? number of
+    integer digits known for zero-padded fields?): recorded python-side so that re.match on a concatenation of
+    such pieces is decided at the language level (pure regex queries).  `width` is non-zero only for zero padding."""
+    plus = "+" in flags
+    if entails(I, xr >= 0):
+        sign = z3.Re("+") if plus else z3.Re("")
+    elif entails(I, xr < 0):
+        sign = z3.Re("-")
     else:
-        if entails(I, xr >= 0):
-            sign = z3.Re("")
-        elif entails(I, xr < 0):
-            sign = z3.Re("-")
-        else:
-            sign = z3.Option(z3.Re("-"))
-        frac = z3.Concat(z3.Re("."), z3.Concat(*([D] * prec)) if prec > 1 else D) if (conv == "f" and prec > 0) else None
-        digits = z3.Plus(D)
-        if width and "0" in flags:
-            ndig = width - (prec + 1 if frac is not None else 0)
-            half = z3.RealVal(1) / (2 * 10 ** prec)
-            if ndig >= 1 and entails(I, z3.And(xr >= 0, xr < 10 ** ndig - half)):
-                digits = z3.Concat(*([D] * ndig)) if ndig > 1 else D
-                I.prover.assume(z3.Length(s) == width)
-        body = z3.Concat(digits, frac) if frac is not None else digits
-        lang = z3.Concat(sign, body)
-        I.prover.assume(z3.InRe(s, lang))
-    I.__dict__.setdefault("str_lang", {})[s.get_id()] = (s, lang)
+        sign = z3.Union(z3.Re("+"), z3.Re("-")) if plus else z3.Option(z3.Re("-"))
+    if conv == "f" and prec > 0:
+        frac = z3.Concat(z3.Re("."), z3.Concat(*([D] * prec)) if prec > 1 else D)
+    elif conv == "f" and "#" in flags:
+        frac = z3.Re(".")
+    else:
+        frac = None
+    digits = z3.Plus(D)
+    if width:
+        ndig = width - (prec + 1 if (conv == "f" and prec > 0) else (1 if frac is not None else 0)) - (1 if (plus or " " in flags) else 0)
+        half = z3.RealVal(1) / (2 * 10 ** prec)
+        if not plus and " " not in flags and ndig >= 1 and entails(I, z3.And(xr >= 0, xr < 10 ** ndig - half)):
+            digits = z3.Concat(*([D] * ndig)) if ndig > 1 else D
+            I.prover.assume(z3.Length(s) == width)
+    body = z3.Concat(digits, frac) if frac is not None else digits
+    lang = z3.Concat(sign, body)
+    I.prover.assume(z3.InRe(s, lang))
+    note(I, s, lang)
 
 
 def percent_format(I, fmt, arg):
@@ -168,7 +209,7 @@ def int_to_str(I, t):
     I.prover.assume(z3.InRe(s, z3.Concat(z3.Option(z3.Re("-")), z3.Plus(D))))
     I.prover.assume(value_of(s) == z3.ToReal(t))
     I.prover.assume(z3.PrefixOf(z3.StringVal("-"), s) == (t < 0))
-    annotate(I, s, t, z3.ToReal(t), "", 0, 0, "d")
+    annotate(I, s, z3.ToReal(t), "", 0, 0, "d")
     from .numparse import int_ok, float_ok
     I.prover.assume(z3.And(int_ok(s), float_ok(s)))      # int(str(i)) and float(str(i)) succeed
     return Sym(VStr(s))
